@@ -93,16 +93,38 @@
                            (`module_slot_interferes`). `slots_in_frame_on_tree`
                            is the generated obligation.
 
+  T8                       process-global tables while other threads compile /
+                           build runtimes, and several runtimes in one process.
+                           Facts (target `c12globals`): the sections (acquisition
+                           + lookup / insert operations) of every accessor of a
+                           lock-shaped `static`, cells inside table entries, the
+                           source of the Roto name in every arm of
+                           `rust_type_to_roto_type`. Machine `Model/ConcIntern`:
+                           get-or-insert under all schedules —
+                           `checked_get_or_insert_sequential` vs
+                           `unchecked_get_or_insert_duplicates`;
+                           `global_insert_section_alone`;
+                           `interner_observations_consistent` (the checker the
+                           driver runs on the real interner's observations);
+                           `names_per_runtime_isolated` vs
+                           `name_cache_leaks_between_runtimes`; generated
+                           obligations `globals_upgrades_rechecked_on_tree`,
+                           `globals_inserts_exclusive_on_tree`,
+                           `globals_entries_frozen_on_tree`,
+                           `names_resolved_per_runtime_on_tree`.
+
   Not modelled (exercised by the stress harness only): data races inside the
   machine code itself (T5's machine is at the level of LIR instructions; that a
   Cranelift explicit stack slot is memory of the running activation is trusted —
-  that slot variables ARE such slots is T7), the `symbol_table` interner.
+  that slot variables ARE such slots is T7). The source of the external
+  `symbol_table` interner is not modelled; its contract is checked (T8).
 -/
 import RotoV.Lemmas.Conc
 import RotoV.Lemmas.ConcShare
 import RotoV.Lemmas.ConcExec
 import RotoV.Model.ConcInstr
 import RotoV.Lemmas.ConcFrame
+import RotoV.Lemmas.ConcIntern
 import RotoV.Generated.C12Bounds
 import RotoV.Generated.C12Sharing
 import RotoV.Generated.C12Globals
@@ -1475,5 +1497,228 @@ example : SitesAdmitted Gen.C12Bounds.facts exSite ∧ SyncConfines sem exSite :
    fun fn pc _ => sem_confined fn pc⟩
 
 end T5Example
+
+/-! ## T8 — process-global tables under concurrent compilation and several runtimes
+
+The property lets a host compile scripts and build runtimes on any number of
+threads while others do the same, and says what a compilation gives is what it
+gives single-threaded. The compiler's process-global tables (the identifier
+interner, the `TypeId` registry) are get-or-insert tables behind a lock; T4 (d)
+says every access holds the lock. That is not enough: a function that looks a
+key up, RELEASES the lock, and inserts under a second acquisition loses updates
+unless it looks the key up again; and an entry with a cell inside caches what the
+first runtime wrote for every later one. Facts (target `c12globals`): for every
+lock-shaped `static`, every function that touches it as a list of sections
+(acquisition + table operations in source order), and the number of
+interior-mutability fields inside the crate types the protected value mentions. -/
+
+section T8
+open Share Intern
+variable {ι : Type} [DecidableEq ι]
+
+/-- **T8 (a) — double-checked get-or-insert is the sequential table.** Any number
+of threads, each interning the text `key t`, under EVERY schedule of their
+sections, from any duplicate-free table: the table stays duplicate-free and only
+grows at its end (indices handed out earlier stay valid), every finished
+operation holds the index of its own text, and two finished operations hold the
+same index iff they interned the same text (one identifier per name — what name
+resolution compares). -/
+theorem checked_get_or_insert_sequential (key : Nat → Nat) (tbl : List Nat) (h0 : tbl.Nodup)
+    (sched : List Nat) :
+    let s := Intern.run true key (Intern.init tbl) sched
+    s.table.Nodup ∧ tbl <+: s.table
+    ∧ (∀ t i, s.pc t = .done i → s.table[i]? = some (key t))
+    ∧ (∀ t u i j, s.pc t = .done i → s.pc u = .done j → (key t = key u ↔ i = j)) := by
+  have hg := run_good key sched _ (init_good key tbl h0)
+  exact ⟨hg.1, run_prefix true key sched (Intern.init tbl), hg.2, fun t u i j ht hu => good_injective hg ht hu⟩
+
+/-- **T8 (a), refutation for the unchecked upgrade.** Two threads intern the same
+new text; both miss under the shared lock before either inserts: the text is in
+the table twice and the two threads hold DIFFERENT identifiers for one name. -/
+theorem unchecked_get_or_insert_duplicates :
+    let s := Intern.run false (fun _ => 7) (Intern.init []) [0, 1, 0, 1]
+    s.table = [7, 7] ∧ s.pc 0 = .done 0 ∧ s.pc 1 = .done 1 := by
+  decide
+
+/-- the same schedule under the double-checked form: one entry, one identifier -/
+example :
+    let s := Intern.run true (fun _ => 7) (Intern.init []) [0, 1, 0, 1]
+    s.table = [7] ∧ s.pc 0 = .done 0 ∧ s.pc 1 = .done 0 := by
+  decide
+
+/-- **T8 (a), the checker the driver runs on the real interner.** `consistent`
+decides "equal texts ↔ equal identifiers" on a list of observations; every list of
+observations the double-checked machine can hand out — any threads, any schedule —
+passes it; the unchecked witness does not. The harness feeds it what
+`verif_hooks::c12::intern` returned to N threads interning the same fresh texts at
+the same moment (`c12 intern …`). -/
+theorem interner_observations_consistent (key : Nat → Nat) (tbl : List Nat) (h0 : tbl.Nodup)
+    (sched ts : List Nat) :
+    Intern.consistent (Intern.observations key (Intern.run true key (Intern.init tbl) sched) ts) = true :=
+  good_consistent (run_good key sched _ (init_good key tbl h0)) ts
+
+theorem interner_checker_sound (obs : List (Nat × Nat)) :
+    Intern.consistent obs = true ↔ ∀ p ∈ obs, ∀ q ∈ obs, (p.1 = q.1 ↔ p.2 = q.2) :=
+  consistent_iff obs
+
+example :
+    Intern.consistent (Intern.observations (fun _ => 7)
+      (Intern.run false (fun _ => 7) (Intern.init []) [0, 1, 0, 1]) [0, 1]) = false
+    ∧ Intern.observations (fun t => t % 2)
+      (Intern.run true (fun t => t % 2) (Intern.init []) [0, 1, 2, 0, 1, 2]) [0, 1, 2] = [(0, 0), (1, 1), (0, 0)] := by
+  decide
+
+/-- both sections of a thread finish its operation, whatever ran in between -/
+theorem get_or_insert_two_sections_finish (r : Bool) (key : Nat → Nat) (s : Intern.St) (t : Nat) :
+    (s.pc t = .start → (Intern.step r key s t).pc t = .missed ∨ ∃ i, (Intern.step r key s t).pc t = .done i)
+    ∧ (s.pc t = .missed → ∃ i, (Intern.step r key s t).pc t = .done i) :=
+  step_progress r key s t
+
+/-- **T8 (a), no operation is lost or stuck.** Under every schedule — checked or
+not — a thread that got its two sections has finished with an identifier, and a
+finished thread keeps it whatever the others do afterwards (so the conclusions
+of `checked_get_or_insert_sequential` are about all threads of a compilation
+that returned). -/
+theorem get_or_insert_finishes (r : Bool) (key : Nat → Nat) (tbl : List Nat) (sched : List Nat) (t : Nat)
+    (h : 2 ≤ sched.count t) : ∃ i, (Intern.run r key (Intern.init tbl) sched).pc t = .done i :=
+  (run_finishes r key sched (Intern.init tbl) t).1 rfl h
+
+/-- the semantic reading of the decision `globalsRecheck`: in every function
+that touches a lock-shaped global, a section that inserts after an earlier
+section of the same function looked a key up performs a lookup of its own
+before its first insert -/
+def UpgradesRechecked (f : GlobalFacts) : Prop :=
+  ∀ s ∈ f.statics, ∀ fn ∈ s.fns, sectionsRecheck false fn.sections = true
+
+theorem globals_recheck_sound (f : GlobalFacts) : globalsRecheck f = true ↔ UpgradesRechecked f := by
+  unfold globalsRecheck UpgradesRechecked GlobalFn.rechecks
+  simp only [List.all_eq_true]
+
+/-- the decision agrees with the machine's `recheck` flag on the canonical
+get-or-insert shape: lookup under one acquisition, then an exclusive section
+whose operations are `ops` and that inserts -/
+theorem recheck_shape (u w : GlobalUse) (ops : List TableOp) (hins : ops.contains .insert = true) :
+    GlobalFn.rechecks { sections := [{ use := u, ops := [.lookup] }, { use := w, ops := ops }] }
+      = lookupBeforeInsert ops := by
+  have hm : TableOp.insert ∈ ops := by simpa using hins
+  simp [GlobalFn.rechecks, sectionsRecheck, hm]
+
+/-- **T8 (a) on the current tree**: no function of the crate inserts into a
+process-global table on the strength of a lookup made under an earlier
+acquisition (the registry's `store` does `entry(..).or_insert_with(..)` under one
+`lock()`). A new `static` table, or a new accessor of an existing one, is a new
+element of the generated list and has to pass. -/
+theorem globals_upgrades_rechecked_on_tree : globalsRecheck Gen.C12Globals.facts = true := by decide
+
+/-- a table behind an `RwLock` with one accessor of the given second section -/
+def exInterner (ops : List TableOp) : GlobalFacts :=
+  { threadLocals := 0,
+    statics := [{ kind := .rwlock, isMut := false, uses := [.read, .write],
+                  fns := [{ sections := [{ use := .read, ops := [.lookup] }, { use := .write, ops := ops }] }] }] }
+
+/-- the decision is not vacuous: the interner of the unchecked form is refused,
+the double-checked one and a single exclusive section pass -/
+example :
+    globalsRecheck (exInterner [.insert, .insert]) = false
+    ∧ globalsRecheck (exInterner [.lookup, .insert, .insert]) = true
+    ∧ globalsRecheck { threadLocals := 0, statics := [{ kind := .mutex, isMut := false, uses := [.lock], fns := [{ sections := [{ use := .lock, ops := [.lookup, .insert] }] }] }] } = true := by
+  decide
+
+/-- **T8 (a), atomicity of the inserting section (lock machine).** If every
+section that inserts into a process-global table was acquired exclusively
+(`globalsInsertExclusive`, decided on the generated sections), then in every
+trace the lock admits — any number of threads, each running some section of some
+accessor — a thread that accesses the table inside an inserting section is the
+ONLY holder: the `missed` step of the machine above is one atomic step. -/
+theorem global_insert_section_alone (f : GlobalFacts) (h : globalsInsertExclusive f = true)
+    (s : StaticFact) (hs : s ∈ f.statics) (fn : GlobalFn) (hfn : fn ∈ s.fns)
+    (sec : GlobalSection) (hsec : sec ∈ fn.sections) (hins : sec.ops.contains .insert = true)
+    (use : ι → GlobalUse) (i : ι) (hi : use i = sec.use)
+    (pre post : List (Ev ι)) (w : Bool) (Hf : List ι)
+    (hrun : runLock s.kind.lockKind (fun j => ((use j).mode).getD .mutexLock) [] (pre ++ .acc i w :: post) = some Hf) :
+    runLock s.kind.lockKind (fun j => ((use j).mode).getD .mutexLock) [] pre = some [i] := by
+  unfold globalsInsertExclusive at h
+  simp only [List.all_eq_true] at h
+  have h1 := h s hs fn hfn sec hsec
+  rw [hins] at h1
+  simp only [Bool.not_true, Bool.false_or] at h1
+  have hg : grantsExcl s.kind.lockKind (((use i).mode).getD .mutexLock) = true := by
+    rw [hi]
+    cases hm : sec.use.mode with
+    | none => rw [hm] at h1; cases h1
+    | some m => rw [hm] at h1; simpa using h1
+  obtain ⟨H, hpre, hw, _⟩ := exclusive_writes s.kind.lockKind _ pre post (.acc i w) Hf hrun
+  rw [hpre, hw i w rfl hg]
+
+/-- on the current tree every inserting section holds the registry's `Mutex` -/
+theorem globals_inserts_exclusive_on_tree : globalsInsertExclusive Gen.C12Globals.facts = true := by decide
+
+example :
+    globalsInsertExclusive (exInterner [.insert]) = true
+    ∧ globalsInsertExclusive { threadLocals := 0, statics := [{ kind := .rwlock, isMut := false, uses := [.read], fns := [{ sections := [{ use := .read, ops := [.insert] }] }] }] } = false := by
+  decide
+
+/-- the generated facts do contain a get-or-insert function (so the obligation
+on the tree is about something) -/
+example : ∃ s ∈ Gen.C12Globals.facts.statics, ∃ fn ∈ s.fns, ∃ sec ∈ fn.sections,
+    sec.ops.contains .insert = true ∧ lookupBeforeInsert sec.ops = true := by decide
+
+/-- **T8 (b) — a per-runtime fact cached in a per-process entry is not isolated.**
+Runtime 0 registers Rust type 5 as name 10, runtime 1 registers the same type as
+name 11. Through the first-wins cache in the process-global entry runtime 1
+resolves its signatures to runtime 0's name; through its own list of registered
+types it resolves to its own. -/
+theorem name_cache_leaks_between_runtimes :
+    let evs := [Intern.RegEv.declare 0 5 10, .declare 1 5 11]
+    resolveCached (cacheRun [] evs) 5 = some 10
+    ∧ resolveOwn (ownTable (alone 1 evs)) 1 5 = some 11
+    ∧ resolveOwn (ownTable evs) 1 5 = some 11 := by
+  decide
+
+/-- **T8 (b).** Resolution through the runtime's own list is what the runtime
+gives alone in a fresh process — whatever other runtimes registered, in any order. -/
+theorem own_resolution_isolated (rt ty : Nat) (evs : List Intern.RegEv) :
+    resolveOwn (ownTable evs) rt ty = resolveOwn (ownTable (alone rt evs)) rt ty :=
+  own_resolution_alone rt ty evs
+
+/-- **T8 (b), by the generated name sources.** If every arm of
+`rust_type_to_roto_type` that produces a name takes it from the runtime's own
+list, then what a runtime resolves a Rust type to is what it resolves it to
+ALONE in a fresh process, whatever other runtimes registered and in whatever order. -/
+theorem names_per_runtime_isolated (l : List NameSource) (h : namesPerRuntime l = true)
+    (rt ty : Nat) (evs : List Intern.RegEv) :
+    ∀ src ∈ l, resolveBy src evs rt ty = resolveBy src (alone rt evs) rt ty := by
+  intro src hsrc
+  unfold namesPerRuntime at h
+  simp only [Bool.and_eq_true, List.all_eq_true] at h
+  have hne := h.1 src hsrc
+  cases src with
+  | ownList => exact own_resolution_alone rt ty evs
+  | foreign => simp at hne
+  | structural => rfl
+
+/-- a `foreign` source is not isolated: the witness of `name_cache_leaks_between_runtimes` -/
+theorem foreign_name_source_not_isolated :
+    let evs := [Intern.RegEv.declare 0 5 10, .declare 1 5 11]
+    resolveBy .foreign evs 1 5 = some 10 ∧ resolveBy .foreign (alone 1 evs) 1 5 = some 11 := by
+  decide
+
+/-- **T8 (b) on the current tree**: both arms of `rust_type_to_roto_type` that
+name a registered type (`Leaf`, `Val`) ask `runtime.get_runtime_type`. -/
+theorem names_resolved_per_runtime_on_tree : namesPerRuntime Gen.C12Globals.nameSources = true := by decide
+
+example : namesPerRuntime [.ownList, .structural, .foreign] = false ∧ namesPerRuntime [.structural] = false := by decide
+
+/-- **T8 (b) on the current tree**: the values behind the crate's process-global
+locks contain no cell (nothing a registration or compilation could set in an
+entry after it was inserted): what the registry hands out is a function of the
+Rust type alone. -/
+theorem globals_entries_frozen_on_tree : globalsEntriesFrozen Gen.C12Globals.facts = true := by decide
+
+example :
+    globalsEntriesFrozen { threadLocals := 0, statics := [{ kind := .mutex, isMut := false, uses := [.lock], entryCells := 1 }] } = false := by
+  decide
+
+end T8
 
 end RotoV.C12
